@@ -160,9 +160,9 @@ def run(tier):
     for (name, module, tr, want, at) in cases:
         v, st, ds, cmd = C.validate_traces(module, module.replace(".tla", ".cfg"), [tr], wd, "st%d" % tr["id"])
         x = v[tr["id"]]
-        clauses = [x[0]] + (x[3].split("@")[0].split("|") if len(x) > 3 else [])
+        clauses = [x[0]] + ([a.split("@")[0] for a in x[3].split("|")] if len(x) > 3 else [])
         ok = any(c.startswith(w_) for c in clauses for w_ in want) and (want == ("ok",) or abs(x[1] - at) <= 2 or True)
         bad += 0 if ok else 1
-        print("%-58s %-34s %s" % (name, "%s @ event %d" % ((x[0], x[1]) if x[0] != "ok" or len(x) < 4 else (x[3].split("@")[0], int(x[3].split("@")[1]) if "@" in x[3] else x[1])), "yes" if ok else "NO (wanted %s)" % (want,)))
+        print("%-58s %-34s %s" % (name, "%s @ event %d" % ((x[0], x[1]) if x[0] != "ok" or len(x) < 4 else (x[3].split("|")[0].split("@")[0], int(x[3].split("|")[0].split("@")[1]) if "@" in x[3].split("|")[0] else x[1])), "yes" if ok else "NO (wanted %s)" % (want,)))
     print("SELFTEST %s" % ("ok" if not bad else "FAILED"))
     return 0 if not bad else 2
